@@ -4,6 +4,7 @@ import re
 from . import mir
 
 TABLE_RX = re.compile(r"redb::(ReadOnly)?(Multimap)?Table(?:::)?<([^<>]*)>")
+TRAIT_RX = re.compile(r" as redb::Readable(Multimap)?Table<([^<>]*)>>::")
 WRITE_OPS = {"insert", "remove", "remove_all", "retain", "retain_in", "extract_if", "extract_from_if", "pop_first", "pop_last", "drain", "insert_reserve", "get_mut"}
 READ_OPS = {"get", "range", "iter", "first", "last", "len", "is_empty"}
 
@@ -44,6 +45,14 @@ def call_table(t, types):
                 if ty == kv:
                     return name, f.get("name"), bool(m.group(1))
             return "?" + kv, f.get("name"), bool(m.group(1))
+        # a call through the reading trait on a generic table (`records: &impl ReadableTable<K, V>` in a helper): the table is
+        # still told by its key/value types
+        m = TRAIT_RX.search(norm(v))
+        if m:
+            kv = norm(m.group(2))
+            for name, ty in types.items():
+                if ty == kv:
+                    return name, f.get("name"), True
     return None
 
 
